@@ -62,6 +62,7 @@ Section Delimited.
       rest = (if trail then match delim s3 with Some s' => s' | None => s3 end else s3).
   Proof.
     intros mn mx trail s items rest Hmn Hmx Hprog H. unfold delimited_list in H.
+    destruct (empty_and_survives mn mx trail); [discriminate|].
     destruct (content s) as [[x s1]|] eqn:C; [|discriminate].
     destruct (rep_exact A content delim (dl_lo mn) s1) as [[xs s2]|] eqn:R; [|discriminate].
     apply rep_exact_chain in R. destruct R as [C1 L1]. unfold dl_lo in L1.
@@ -77,11 +78,12 @@ Section Delimited.
 
   (* when it fails: no first element, or fewer than min - 1 further (delim content) pairs *)
   Theorem delimited_list_fails : forall mn mx trail s,
-    delimited_list A content delim mn mx trail s = None <->
-    (content s = None \/
-     exists x s1, content s = Some (x, s1) /\ ~ exists xs s2, chain xs s1 s2 /\ length xs = mn - 1).
+    empty_and_survives mn mx trail = false ->
+    (delimited_list A content delim mn mx trail s = None <->
+     (content s = None \/
+      exists x s1, content s = Some (x, s1) /\ ~ exists xs s2, chain xs s1 s2 /\ length xs = mn - 1)).
   Proof.
-    intros mn mx trail s. unfold delimited_list. destruct (content s) as [[x s1]|] eqn:C.
+    intros mn mx trail s HE. unfold delimited_list. rewrite HE. destruct (content s) as [[x s1]|] eqn:C.
     - destruct (rep_exact A content delim (dl_lo mn) s1) as [[xs s2]|] eqn:R.
       + destruct (rep_greedy A content delim _ s2) as [ys s3]. split; [discriminate|].
         intros [H | (x' & s1' & E & H)]; [discriminate|]. injection E as <- <-. exfalso. apply H.
